@@ -35,6 +35,10 @@ def cases(res):
     add(1, {})
     add(2, {"hierarchical_levels": 0})
     add(30, {"hierarchical_levels": 5, "intra_period_length": -1})
+    # boundary hunt for the leb128 size fields: many small frames so that OBU payloads of exactly 127 / 128 bytes occur
+    for qp in (range(22, 64, 3) if res.tier == "quick" else range(16, 64)):
+        add(160 if res.tier == "quick" else 220, {"qp": qp, "enable_qp_scaling_flag": 1, "logical_processors": 2, "intra_period_length": -1},
+            args=["--content", "motion", "--cseed", str(qp)])
     if res.tier == "thorough":
         for i in range(40):
             add(rng.choice([3, 8, 9, 16, 17, 25, 33, 40]),
@@ -70,6 +74,11 @@ def run(res):
         exp = stream.default_expect(r)
         be, errs, pk = stream.bitstream_events(r, n_expected=r["case"]["n"])
         npk += len(pk)
+        for x in be:
+            if x["ev"] == "Obu" and x["type"] in (3, 6):
+                pay = x["total"] - 2 if x["total"] - 2 < 128 else x["total"] - 3
+                if pay in (126, 127, 128, 129):
+                    res.add("frame_obus_with_payload_%d" % pay)
         for e in errs:
             res.violation("packet does not parse as a sequence of OBUs: %s (%s)" % (e, r["desc"]), "", key={"kind": "parse"})
         # clause "byte-identical ... to the header returned by the stream-header API"
